@@ -55,7 +55,7 @@ def octabox(sub=0):
     return dict(bitmap=bitmap, diag=(0, 255, 0, 255), subs=subs)
 
 
-def s_full(version=5, glat_version=3, compress=(), rtl=False, with_collision=True, subboxes=True, glyf=True, extra_attr_glyphs=0, dense_attrs=False, line_ends=False, cmap_edges=False, pass_bits=False, bad_glyph=None, bidi_pass=False, feat_pconstraint=False, just_step=1, many_pseudos=False, no_just=False, just_attached=False):
+def s_full(version=5, glat_version=3, compress=(), rtl=False, with_collision=True, subboxes=True, glyf=True, extra_attr_glyphs=0, dense_attrs=False, line_ends=False, cmap_edges=False, pass_bits=False, bad_glyph=None, bidi_pass=False, feat_pconstraint=False, just_step=1, many_pseudos=False, no_just=False, just_attached=False, bad_gid_char=None, lb_gid=0):
     names = ['notdef', 'space', 'a', 'b', 'c', 'd', 'x', 'y', 'z', 'acute', 'grave', 'pseudo', 'astral', 'lig', 'e', 'f']
     glyphs = []
     for i, n in enumerate(names):
@@ -80,7 +80,8 @@ def s_full(version=5, glat_version=3, compress=(), rtl=False, with_collision=Tru
         glyphs.append(g)
     cm = {0x20: 1, 0x61: G['a'], 0x62: G['b'], 0x63: G['c'], 0x64: G['d'], 0x65: G['e'], 0x66: G['f'], 0x301: G['acute'], 0x300: G['grave'], 0x10000: G['astral'], 0x10400: G['astral']}
     if cmap_edges:      # first format 4 segment starts at U+0000, the closing segment FFFC..FFFF carries real mappings
-        cm.update({0: G['x'], 1: G['y'], 2: G['z'], 0xFFFC: G['x'], 0xFFFD: G['y'], 0xFFFE: G['z'], 0xFFFF: G['acute'], 0x100041: G['astral'], 0x10FFFF: G['astral']})      # + plane 16
+        cm.update({0: G['x'], 1: G['y'], 2: G['z'], 0xFFFC: G['x'], 0xFFFD: G['y'], 0xFFFE: G['z'], 0xFFFF: G['acute'], 0x100041: G['astral'], 0x10FFFD: G['pseudo'], 0x10FFFE: G['astral'], 0x10FFFF: G['lig']})      # + plane 16; the LAST format-12 group is a range of three code points
+    if bad_gid_char: cm[bad_gid_char] = 999          # a character whose cmap entry names a glyph the font does not have: the slot keeps that id, with no metrics
     S = lambda *n: {G[k] for k in n}
     classes = [[G['x']], [G['y']], [G['z']], [G['x'], G['y']], [G['lig']],          # linear / output
                [G['a'], G['b']], [G['a'], G['b'], G['c'], G['d']]]                   # lookup / input
@@ -121,6 +122,7 @@ def s_full(version=5, glat_version=3, compress=(), rtl=False, with_collision=Tru
                 jlevels=([] if no_just else [(GA['jstretch'], GA['jshrink'], GA['jstep'], GA['jweight'])]), iSubst=0, iPos=2, iJust=len(passes), flags=flags,
                 aPseudo=GA['pseudo'], aBreak=GA['brk'], aBidi=GA['bidi'], aMirror=GA['mirror'], aPassBits=GA['passbits'] if pass_bits else 0, numUser=2, dir=1 if rtl else 0,
                 aCollision=GA['coll'] if (with_collision and glat_version >= 3) else 0, critFeatures=[0], scriptTags=[tag('latn')], maxPre=1, maxPost=2)
+    if lb_gid: silf['lbGID'] = lb_gid          # glyph of the temporary line-end slots (never validated by the loader)
     if bidi_pass: silf['iBidi'] = len(passes)          # the loader wants iBidi >= iJust: the bidi / mirroring step comes after the last pass
     return dict(glyphs=glyphs, cmap=cm, cmap12=True, num_attrs=34, glat_version=glat_version, gloc_long=True, glyf=glyf, extra_attr_glyphs=extra_attr_glyphs, silf=silf,
                 names={256: 'Feature One', 257: 'Off', 258: 'On', 259: 'Second', 260: 'Zero', 261: 'Two', 262: 'Héllo \U00010400'},
@@ -202,7 +204,7 @@ def write_all(outdir):
     fonts = {'s_min': s_min(), 's_full': s_full(), 's_full_z': s_full(compress=('Silf', 'Glat')), 's_full_v3': s_full(version=3, glat_version=1, with_collision=False),
              's_full_v4': s_full(version=4, glat_version=2, with_collision=False), 's_full_rtl': s_full(rtl=True), 's_full_nosub': s_full(subboxes=False),
              's_full_zs': s_full(compress=('Silf',)), 's_full_zg': s_full(compress=('Glat',)),
-             's_full_noglyf': s_full(glyf=False), 's_full_extra': s_full(extra_attr_glyphs=3), 's_full_dense': s_full(dense_attrs=True), 's_full_le': s_full(line_ends=True), 's_full_cmapedge': s_full(cmap_edges=True), 's_full_pb': s_full(pass_bits=True, feat_pconstraint=True), 's_full_step': s_full(just_step=3), 's_full_pseudos': s_full(many_pseudos=True), 's_full_nojust': s_full(no_just=True), 's_full_jatt': s_full(just_attached=True), 's_full_rtl_jatt': s_full(rtl=True, just_attached=True), 's_twoclass': s_twoclass(), 's_full_unsorted': s_full(), 's_full_bidi': s_full(bidi_pass=True), 's_full_rtl_bidi': s_full(rtl=True, bidi_pass=True), 's_full_badglyph': s_full(bad_glyph='e'), 's_full_badlast': s_full(bad_glyph='f'), 's_full_rtl_le': s_full(rtl=True, line_ends=True)}
+             's_full_noglyf': s_full(glyf=False), 's_full_extra': s_full(extra_attr_glyphs=3), 's_full_dense': s_full(dense_attrs=True), 's_full_le': s_full(line_ends=True), 's_full_le_badlb': s_full(line_ends=True, lb_gid=999), 's_full_cmapedge': s_full(cmap_edges=True), 's_full_pb': s_full(pass_bits=True, feat_pconstraint=True), 's_full_step': s_full(just_step=3), 's_full_pseudos': s_full(many_pseudos=True), 's_full_nojust': s_full(no_just=True), 's_full_jatt': s_full(just_attached=True), 's_full_badgid': s_full(no_just=True, bad_gid_char=0x64), 's_full_rtl_jatt': s_full(rtl=True, just_attached=True), 's_twoclass': s_twoclass(), 's_full_unsorted': s_full(), 's_full_bidi': s_full(bidi_pass=True), 's_full_rtl_bidi': s_full(rtl=True, bidi_pass=True), 's_full_badglyph': s_full(bad_glyph='e'), 's_full_badlast': s_full(bad_glyph='f'), 's_full_rtl_le': s_full(rtl=True, line_ends=True)}
     fonts.update(feat_family())
     index = {}
     for name, spec in fonts.items():
